@@ -67,7 +67,7 @@ def _enum(tier, shard, nshards):
 
 
 PHASES = [
-    HypPhase("dyadic", _case, dict(quick=3000, thorough=40000)),
+    HypPhase("dyadic", _case, dict(quick=5000, thorough=40000)),
     EnumPhase("grid4x3", _enum,
               lambda tier: "all ordered triples of subsets of {0..4} on [0,4] x indices in "
                            "{None,[2,0],[1,2,0]}, MRTS=0, no max_tau"),
